@@ -665,7 +665,10 @@ func (r *Recorder) onStatus(inc *Incarnation, st raft.Status) {
 					continue
 				}
 				if appliedNow {
-					if reg, ok := r.Reg[call.AppendedIndex]; ok && reg.Term == call.AppendedTerm {
+					// (The entry at that index must still be a configuration entry: under F4 two leaders
+					// of one term can exist, the other one's request truncates the log and an ordinary
+					// operation with the same index and term takes the place of the change.)
+					if reg, ok := r.Reg[call.AppendedIndex]; ok && reg.Term == call.AppendedTerm && reg.Type == raft.ConfigurationEntry {
 						call.AppliedAtNs = r.c.Sim.Now()
 						call.AppliedSeq = r.seq
 						r.probe("membership-change-applied-by-its-leader")
